@@ -5,6 +5,7 @@ import (
 	"go/ast"
 	"go/constant"
 	"go/token"
+	"go/types"
 	"sort"
 	"strings"
 
@@ -454,6 +455,195 @@ func runC05(c *Ctx, w *World, r *Report) {
 	}
 	r.Check(bad == "", "R-SELECT", "bmtree.IndexToPath", w.Pos(fn.Pos()), bad, fmt.Sprintf("selector and loop exit both use mask&%d", selMask))
 
+	// R-LOOKUPEXIT: the descent loop is left only when the table can answer
+	{
+		r.Rule("R-LOOKUPEXIT", "every edge that leaves the bit-by-bit descent loop of IndexToPath is the failing edge of the selector test (mask&m == 0) or of the remaining-index test (index > 0): only then does the final lookup find a row for the selector, or index 0 in row 0. Any further way out (an iteration cap, a break on another condition) reaches row 0 - a single entry - with a non-zero index")
+		badL := ""
+		nexit := 0
+		var hdr *ssa.BasicBlock
+		var selTest *ssa.BinOp
+		eachInstr(fn, func(ins ssa.Instruction) {
+			bo, ok := ins.(*ssa.BinOp)
+			if !ok || (bo.Op != token.EQL && bo.Op != token.NEQ) || selX == nil {
+				return
+			}
+			x, _, ok := asLowMask(bo.X)
+			if !ok || fa.VN(x) != fa.VN(selX) {
+				return
+			}
+			if k, ok := constInt64(stripConv(bo.Y)); !ok || k != 0 {
+				return
+			}
+			if bo.Referrers() != nil {
+				for _, ref := range *bo.Referrers() {
+					if ifi, ok := ref.(*ssa.If); ok {
+						hdr, selTest = ifi.Block(), bo
+					}
+				}
+			}
+		})
+		// the row index of the final lookup
+		var rowIdx ssa.Value
+		eachInstr(fn, func(ins ssa.Instruction) {
+			if ia, ok := ins.(*ssa.IndexAddr); ok {
+				if ld, ok := ia.X.(*ssa.UnOp); ok {
+					if ia2, ok := ld.X.(*ssa.IndexAddr); ok {
+						if u, ok := ia2.X.(*ssa.UnOp); ok && isGlobal(u.X, "bmtree", "idxToPath") {
+							rowIdx = stripConv(ia.Index)
+						}
+					}
+				}
+			}
+		})
+		if hdr == nil || selTest == nil {
+			badL = "no descent loop test on the selector bits found"
+		} else {
+			// the loop: the natural loop(s) whose header dominates the selector test and that contain it
+			var loopHdr *ssa.BasicBlock
+			for d := hdr; d != nil; d = d.Idom() {
+				for _, p := range d.Preds {
+					if d.Dominates(p) && fa.Reaches(hdr, p) {
+						loopHdr = d
+					}
+				}
+				if loopHdr != nil {
+					break
+				}
+			}
+			if loopHdr == nil {
+				badL = "the selector test is not inside a loop"
+			} else {
+				inLoop := func(b *ssa.BasicBlock) bool { return loopHdr.Dominates(b) && fa.Reaches(b, loopHdr) }
+				for _, b := range fn.Blocks {
+					if !inLoop(b) {
+						continue
+					}
+					for k, sc := range b.Succs {
+						if inLoop(sc) {
+							continue
+						}
+						nexit++
+						ifi, ok := b.Instrs[len(b.Instrs)-1].(*ssa.If)
+						if !ok {
+							badL = "the descent loop is left at " + w.InstrPos(b.Instrs[len(b.Instrs)-1]) + " without a test"
+							continue
+						}
+						pol := k == 0
+						cond := ifi.Cond
+						for {
+							u, ok := cond.(*ssa.UnOp)
+							if !ok || u.Op != token.NOT {
+								break
+							}
+							cond, pol = u.X, !pol
+						}
+						if cond == ssa.Value(selTest) {
+							if (selTest.Op == token.EQL) == pol {
+								badL = "the descent loop is left on the edge where the selector bits are still zero"
+							}
+							continue
+						}
+						if D, op, ok := fa.CondRel(Cond{V: cond, Pol: pol, If: ifi}); ok && len(D.T) == 1 {
+							var bd Bounds
+							single := false
+							for atom, cf := range D.T {
+								if cf == 1 && rowIdx != nil && fa.AtomValue(atom) == rowIdx {
+									single = true
+								}
+							}
+							applyRel(&bd, D.K, op, "")
+							if single && bd.HasHi && bd.Hi <= 0 {
+								continue
+							}
+						}
+						badL = "the descent loop can also be left at " + w.InstrPos(ifi) + " on a condition that is neither `selector bits != 0` nor `remaining index <= 0`: the table is then read with selector 0 and a non-zero index"
+					}
+				}
+			}
+		}
+		r.Check(badL == "", "R-LOOKUPEXIT", "bmtree.IndexToPath", w.Pos(fn.Pos()), badL, fmt.Sprintf("%d loop exits, each on selector != 0 or index <= 0", nexit))
+	}
+	// R-ACCUM: what earlier iterations put into the path word is kept
+	{
+		r.Rule("R-ACCUM", "the 64-bit words IndexToPath carries around its loops and combines into the result (the path accumulator, the level mask) are updated from their own previous value on every way round a loop (p2 |= .., mask >>= ..): a plain assignment inside a loop overwrites what earlier iterations contributed (e.g. a prefix shortcut applied a second time drops the bits fixed by the first)")
+		badA := ""
+		nacc := 0
+		seen := map[ssa.Value]bool{}
+		var accs []*ssa.Phi
+		var walk func(v ssa.Value, depth int)
+		walk = func(v ssa.Value, depth int) {
+			if v == nil || seen[v] || depth > 40 {
+				return
+			}
+			seen[v] = true
+			switch x := v.(type) {
+			case *ssa.Phi:
+				if isLoopHeaderPhi(x) {
+					if b, ok := x.Type().Underlying().(*types.Basic); ok && b.Kind() == types.Uint64 {
+						accs = append(accs, x)
+					}
+				}
+				for _, e := range x.Edges {
+					walk(e, depth+1)
+				}
+			case *ssa.BinOp:
+				switch x.Op {
+				case token.OR, token.AND, token.AND_NOT, token.XOR, token.SHR, token.SHL, token.ADD, token.SUB:
+					walk(x.X, depth+1)
+					if x.Op != token.SHR && x.Op != token.SHL {
+						walk(x.Y, depth+1)
+					}
+				}
+			}
+		}
+		for _, ret := range returnsOf(fn) {
+			walk(ret.Results[0], 0)
+		}
+		dependsOn := func(v ssa.Value, p *ssa.Phi) bool {
+			sn := map[ssa.Value]bool{}
+			var dep func(v ssa.Value) bool
+			dep = func(v ssa.Value) bool {
+				if v == nil || sn[v] {
+					return false
+				}
+				sn[v] = true
+				if v == ssa.Value(p) {
+					return true
+				}
+				if ins, ok := v.(ssa.Instruction); ok {
+					if _, isPhi := v.(*ssa.Phi); isPhi {
+						return false // merges are expanded by the caller
+					}
+					for _, op := range ins.Operands(nil) {
+						if op != nil && *op != nil && dep(*op) {
+							return true
+						}
+					}
+				}
+				return false
+			}
+			return dep(v)
+		}
+		for _, p := range accs {
+			nacc++
+			for i, e := range p.Edges {
+				if !p.Block().Dominates(p.Block().Preds[i]) {
+					continue // entry edge
+				}
+				for _, leaf := range resolvePhiExcept(e, p) {
+					if leaf == ssa.Value(p) || dependsOn(leaf, p) {
+						continue
+					}
+					pos := w.Pos(p.Pos())
+					if ins, ok := leaf.(ssa.Instruction); ok {
+						pos = w.InstrPos(ins)
+					}
+					badA = fmt.Sprintf("the loop-carried word %s is replaced at %s by a value that does not derive from its previous value: the contribution of earlier iterations is lost", p.Comment, pos)
+				}
+			}
+		}
+		r.Check(badA == "", "R-ACCUM", "bmtree.IndexToPath", w.Pos(fn.Pos()), badA, fmt.Sprintf("%d loop-carried 64-bit words feed the result, each updated from its previous value", nacc))
+	}
 	// R-FILL32: (index<<32 | fill) & mask reads one bit of the index half and one of the mask half; the mask-half bit is bit h, h <= 30
 	{
 		r.Rule("R-FILL32", "in IndexToPath every constant OR-ed with index<<32 (the word from which `& mask` picks the level's index bit and its mask bit) has bits 0..30 all set and nothing in the upper half: the level mask bit sits at bit h for heights up to 30; a narrower fill (e.g. 0x3fffffff) loses the mask bit of the top level of a height-30 tree only")
@@ -602,6 +792,28 @@ func runC05(c *Ctx, w *World, r *Report) {
 		r.Check(badS == "", "R-STALE", "bmtree.IndexToPath", w.Pos(fn.Pos()), badS, fmt.Sprintf("%d index updates, each decided from the version it updates", nupd))
 	}
 	_ = strings.Join
+}
+
+// resolvePhiExcept expands v through merge phis into its sources; the phi `stop` is a source of its own.
+func resolvePhiExcept(v ssa.Value, stop *ssa.Phi) []ssa.Value {
+	var out []ssa.Value
+	seen := map[ssa.Value]bool{}
+	var rec func(ssa.Value)
+	rec = func(v ssa.Value) {
+		if seen[v] {
+			return
+		}
+		seen[v] = true
+		if p, ok := v.(*ssa.Phi); ok && p != stop {
+			for _, e := range p.Edges {
+				rec(e)
+			}
+			return
+		}
+		out = append(out, v)
+	}
+	rec(v)
+	return out
 }
 
 func init() {
